@@ -128,6 +128,12 @@ CHECKS.update({
         "Trees whose directories are named test / tests / docs (at any depth, nested in each other) or merely look like it (testing, mytests, docs_old, Test, tests_extra, doc; files test_x.py, tests.py, docs.py) are analysed with the flag off and on; the set of module ids, the declarations in the API JSON, the stub paths and the bytes of the stubs of unaffected modules are compared with what the tree implies.",
         "§5 C15",
     ),
+    "C18": (
+        "E4 relation engine",
+        "metamorphic property-based testing: pairs of packages that differ by an unrelated module (removed / renamed / changed / added / moved before or after, possibly reusing the target's names) or by a permutation of the target's declarations; oracle = byte equality of the target's stubs, resp. equal header and equal multiset of declaration blocks",
+        "A target module with classes, a private base, functions, an enum, forward-referencing list attributes and a re-exported class is analysed together with an unrelated module that in half of the cases reuses the target's class, function, enum, private-base and module names; seven variants of the unrelated part and one permutation of the target's declarations must leave the target's stub files unchanged (up to the order of its declarations).",
+        "§5 C18",
+    ),
 })
 
 NOT_YET = "check not built yet in this session (work in progress, see DESIGN.md §9)"
